@@ -3695,7 +3695,12 @@ class SQLCompiler(Compiled):
         return text
 
     def _generate_generic_unary_operator(self, unary, opstring, **kw):
-        return opstring + unary.element._compiler_dispatch(self, **kw)
+        operand = unary.element._compiler_dispatch(self, **kw)
+        if opstring == "-" and operand.startswith("-"):
+            # "-" in front of a rendered negative literal would produce
+            # "--", which begins a comment in SQL
+            operand = " " + operand
+        return opstring + operand
 
     def _generate_generic_unary_modifier(self, unary, opstring, **kw):
         return unary.element._compiler_dispatch(self, **kw) + opstring
